@@ -162,6 +162,11 @@ func decodeEntry(cdc codec.Marshaler, prefix byte, k, v []byte) (string, bool) {
 		if !ok || cdc.UnmarshalBinaryBare(v, &p) != nil {
 			return "", false
 		}
+		// the stored price is one coin of the base denomination — `0stake` for a free service (ParsePricing keeps the
+		// explicit zero coin); anything else (an empty list, two coins) does not decode to price terms
+		if len(p.Price) != 1 || p.Price[0].Denom != stakeDenom {
+			return "", false
+		}
 		return fmt.Sprintf("PR %s %s %s %s %s", wordOrDash(svc), hexOrDash(prov), p.Price.AmountOf(stakeDenom),
 			promTText(p.PromotionsByTime), promVText(p.PromotionsByVolume)), true
 
